@@ -522,6 +522,54 @@ J_iso_roundtrip(e) ==
                 ELSE V("class", p.parsed.cls = "DateTime", "DateTime") \o V("fields", p.parsed.w = ww, ww)
                      \o V("offset", p.parsed.off = off, off)))
 
+\* ---- C13 -----------------------------------------------------------------------------
+\* a parsed duration projection: years, months (ints) and r3 (native slots); rest = r3 - (365 y + 30 mo) days
+RestOfP(p) == D3Sub(p.r3, <<365 * p.years + 30 * p.months, 0, 0>>)
+CmpParsedDur(p, r, tag) ==
+  IF p.k = "exc" THEN << <<tag \o "-rejects-valid", p.names>> >>
+  ELSE IF p.k # "dur" THEN << <<tag \o "-kind", p.k>> >>
+  ELSE V(tag \o "-years-months", <<p.years, p.months>> = <<BNToInt(r.y), BNToInt(r.mo)>>, <<BNToInt(r.y), BNToInt(r.mo)>>)
+       \o V(tag \o "-length", RestOfP(p) = r.rest, r.rest)
+J_dur_parse(e) ==
+  LET r == RecDuration(e.a.text)  p == e.post IN
+  IF ~r.ok
+  THEN R(<<"ill-formed", e.a.cls>>,
+         IF e.a.cls \in {"out-of-order", "frac-year", "frac-month"}
+         THEN V("top-must-reject", p.top.k = "exc", e.a.cls) \o V("py-must-reject", p.py.k = "exc", e.a.cls)
+              \o V("rs-must-reject", p.rs.k = "exc", e.a.cls)
+         ELSE <<>>)
+  ELSE IF r.big
+  THEN R(<<"too-large", e.a.cls, "wide", B(r.maxdigits >= 10)>>, V("top-must-reject-too-large", p.top.k = "exc", "not representable")
+                                   \o V("py-must-reject-too-large", p.py.k = "exc", "not representable")
+                                   \o V("rs-must-reject-too-large", p.rs.k = "exc", "not representable"))
+  ELSE IF r.tie THEN R(<<"half-microsecond-tie">>, <<>>)           \* "rounded" names no tie rule (soundness rule 2)
+  ELSE R(<<"valid", e.a.cls, "frac", N(r.fraclen), "ncomp", N(r.ncomp), "wide", B(r.maxdigits >= 10)>>,
+         V("driver-class", e.a.cls = "valid", "the driver labelled a well-formed duration as ill-formed")
+         \o CmpParsedDur(p.top, r, "top") \o CmpParsedDur(p.py, r, "py") \o CmpParsedDur(p.rs, r, "rs")
+         \o (IF p.top.k = "dur" THEN V("top-class", p.top.cls = "Duration", "Duration") ELSE <<>>))
+\* ISO 8601 intervals: start/end, start/duration, duration/end
+CompOfRest(y, mo, rest) == LET b == Breakdown(rest) IN
+   [y |-> y, mo |-> mo, w |-> b[1], d |-> b[2], h |-> b[3], mi |-> b[4], s |-> b[5], us |-> b[6]]
+J_iv_parse(e) ==
+  LET p == e.post
+      pa == IF e.a.kind = "duration/end" THEN Invalid ELSE Recognise(e.a.t1)
+      pb == IF e.a.kind = "start/duration" THEN Invalid ELSE Recognise(e.a.t2)
+      du == IF e.a.kind = "start/end" THEN Invalid ELSE RecDuration(IF e.a.kind = "start/duration" THEN e.a.t2 ELSE e.a.t1)
+      AsDT(v) == DT((IF v.hasoff THEN FixedRef(v.off) ELSE UtcRef), <<v.d[1], v.d[2], v.d[3], v.t[1], v.t[2], v.t[3], v.t[4]>>, 0)
+      okForms == (e.a.kind = "start/end" => pa.ok /\ pb.ok /\ pa.kind = "datetime" /\ pb.kind = "datetime")
+                 /\ (e.a.kind = "start/duration" => pa.ok /\ pa.kind = "datetime" /\ du.ok /\ ~du.big /\ ~du.tie)
+                 /\ (e.a.kind = "duration/end" => pb.ok /\ pb.kind = "datetime" /\ du.ok /\ ~du.big /\ ~du.tie)
+  IN IF ~okForms THEN R(<<e.a.kind, "not-well-formed">>, <<>>)
+     ELSE LET c == IF e.a.kind = "start/end" THEN [y |-> 0] ELSE CompOfRest(BNToInt(du.y), BNToInt(du.mo), du.rest)
+              st == IF e.a.kind = "duration/end" THEN Add(AsDT(pb), NegC(c)) ELSE AsDT(pa)
+              en == IF e.a.kind = "start/duration" THEN Add(AsDT(pa), c) ELSE AsDT(pb)
+          IN R(<<e.a.kind, "ok">>,
+               IF p.k = "exc" THEN << <<"rejects-valid", p.names>> >>
+               ELSE IF p.k # "iv" THEN << <<"kind", p.k>> >>
+               ELSE V("class", p.cls = "Interval", "Interval")
+                    \o V("start", p.a.k = "dt" /\ p.a.w = st.w /\ p.a.off = OffOf(st), st.w)
+                    \o V("end", p.b.k = "dt" /\ p.b.w = en.w /\ p.b.off = OffOf(en), en.w))
+
 \* ---- C15 -----------------------------------------------------------------------------
 J_year_prims(e) == LET y == e.a.y IN
    R(<<B(IsLeap(y)), B(IsLongYear(y))>>,
@@ -579,6 +627,8 @@ Judge(e) == CASE e.op = "in_tz" -> J_in_tz(e)
               [] e.op = "iso_parse" -> J_iso_parse(e)
               [] e.op = "iso_year_scan" -> J_iso_year_scan(e)
               [] e.op = "iso_roundtrip" -> J_iso_roundtrip(e)
+              [] e.op = "dur_parse" -> J_dur_parse(e)
+              [] e.op = "iv_parse" -> J_iv_parse(e)
               [] e.op = "year_prims" -> J_year_prims(e)
               [] e.op = "year_weekdays" -> J_year_weekdays(e)
               [] e.op = "year_getters" -> J_year_getters(e)
